@@ -6,4 +6,5 @@ let () =
   match Array.to_list Sys.argv with
   | _ :: "layout" :: _ -> Cmd_layout.run ()
   | _ :: "recon" :: _ -> Cmd_recon.run ()
+  | _ :: "session" :: rest -> Cmd_session.run rest
   | _ -> prerr_endline "usage: fvm <layout|...>"; exit 2
